@@ -48,6 +48,8 @@ type Oblig struct {
 	NoReach bool // vacuity probe: expected to be refuted
 	File    string
 	preSolved bool
+	Cases    int64
+	Replayed bool
 }
 
 type LoopInfo struct {
@@ -106,6 +108,15 @@ type FnCtx struct {
 	usedSpecs map[string]bool
 	pureMode  bool
 	pkgOverride *types.Package
+	initPhase   bool
+	collectApps bool
+	apps        []specApp
+	opaqueRec   bool // recursive spec functions are uninterpreted; only explicit unfoldings are visible
+}
+
+type specApp struct {
+	def  *SpecFnDef
+	args []Term
 }
 
 func (e *Engine) newFnCtx(fn *ssa.Function) *FnCtx {
@@ -120,6 +131,12 @@ func (e *Engine) newFnCtx(fn *ssa.Function) *FnCtx {
 	fc.mode = ModeInt
 	if fc.c != nil && fc.c.ModeSet {
 		fc.mode = fc.c.Mode
+	}
+	if fc.c != nil && fc.c.InitPhase {
+		fc.initPhase = true
+	}
+	if fc.c != nil && fc.c.Opaque {
+		fc.opaqueRec = true
 	}
 	pk := ""
 	if fn.Pkg != nil {
@@ -480,6 +497,14 @@ func (fc *FnCtx) translate() {
 			} else {
 				_ = t
 			}
+		}
+		for _, g := range fc.c.Globals {
+			t, err := fc.specBool(env, g)
+			if err != nil {
+				fc.unbound = append(fc.unbound, fmt.Sprintf("global %q: %v", g, err))
+				continue
+			}
+			fc.assume(t)
 		}
 		for _, u := range fc.c.Uses {
 			t, err := fc.lemmaUse(env, nil, u)
